@@ -86,7 +86,7 @@ def reader_runs(ctx: Ctx, fname: str, schema: Any, **kw: Any) -> List[C.CodecRun
     cache = ctx.__dict__.setdefault("_codec_cache", {})
     if key not in cache:
         if fname == "deserialize":
-            cache[key] = (schema, C.explore_codec(ctx, fname, lambda sink: ([schema, Sym(_kind_="bytes")], dict(kw))))
+            cache[key] = (schema, C.explore_codec(ctx, fname, lambda sink: ([schema, C.AData()], dict(kw))))
         else:
             cache[key] = (schema, C.explore_codec(ctx, fname, lambda sink: ([C.AReader(sink, "r"), schema], dict(kw))))
     return cache[key][1]
